@@ -638,6 +638,13 @@ def addrnsec(ctx: Any) -> List[Ob]:
     # missing types
     miss = find_locals(f, lambda v: isinstance(v, ast.BinOp) and isinstance(v.op, ast.Sub) and prog.try_fold(f.module, v.left) == (True, frozenset({1, 28})) and norm(v.right) == seen_v)
     obs.append(ob(R, f, f'missing_types = _ADDRESS_RECORD_TYPES - {seen_v}', 'the missing types are {A, AAAA} minus the types the host has', len(miss) == 1))
+    # the three per-service collections start empty for EVERY service of the host: they are initialised inside the loop over
+    # the services (hoisted out of it, the types / additionals of one service leak into the NSEC and additionals of the next)
+    svc_loops = [n for n in cfg.nodes if n.kind == 'for' and not n.in_loop]
+    for v in (ans_v, add_v, seen_v):
+        inits = [n for n in cfg.nodes if n.kind == 'stmt' and isinstance(n.ast, (ast.Assign, ast.AnnAssign)) and norm(n.ast.targets[0] if isinstance(n.ast, ast.Assign) else n.ast.target) == v]
+        per_service = bool(inits) and len(svc_loops) == 1 and all(svc_loops[0].ast in n.in_loop and len(n.in_loop) == 1 for n in inits)
+        obs.append(ob(R, f, inits[0].ast if inits else v, f'`{v}` is started afresh for each service that shares the host name', per_service, '' if per_service else f'`{v}` is not (re)initialised inside the loop over the services: it accumulates across services'))
     if len(miss) != 1:
         return obs
     miss_v = miss[0]
